@@ -3,7 +3,7 @@ CONSTANTS
  Copies = 1  Pad = 0  Concat = FALSE
  OutOvh = 1
  EarlyTailError = FALSE
- MaxReinit = 0 MemStop = 1000000 MaxRaise = 0 Tell = "none"
+ MaxReinit = 0 MemStop = 1000000 MaxRaise = 0 MayFailMain = FALSE Tell = "none"
  CountCalls = TRUE
  NW = 2  HdrSz = 1  TailSz = 1  TailOk = TRUE  Chunk = 1
  Blocks <- B_ok3
